@@ -118,10 +118,11 @@ class ByteArray(SimpleModel):
 
     @classmethod
     def from_base64(cls, value):
-        joiner = type(value)()
+        if isinstance(value, (list, tuple)):
+            value = _bytes_join(value)
         try:
-            return (b64decode(joiner.join(value)),)
-        except TypeError:
+            return (b64decode(value),)
+        except (TypeError, ValueError):  # binascii.Error is a ValueError
             raise ValidationError(value)
 
     @classmethod
@@ -142,7 +143,7 @@ class ByteArray(SimpleModel):
             else:
                 return (urlsafe_b64decode(value),)
 
-        except TypeError as e:
+        except (TypeError, ValueError) as e:  # binascii.Error is a ValueError
             logger.exception(e)
 
             if len(value) < 100:
@@ -156,7 +157,12 @@ class ByteArray(SimpleModel):
 
     @classmethod
     def from_hex(cls, value):
-        return (unhexlify(_bytes_join(value)),)
+        if isinstance(value, (list, tuple)):
+            value = _bytes_join(value)
+        try:
+            return (unhexlify(value),)
+        except (TypeError, ValueError):  # binascii.Error is a ValueError
+            raise ValidationError(value)
 
 
 def _default_binary_encoding(b):
